@@ -24,6 +24,12 @@ theorem provider_tls_https (cfg : Cfg) (ssl : Option Bool) (h : cfg.provTls = tr
   intro s hs
   cases s <;> simp_all [urlScheme, provScheme, Site.ofProvider]
 
+/-- ... also towards a subscriber that named an `http://` NotifyTo / EndTo address, with either subscription manager:
+    the reports are sent with TLS or not at all, never in plaintext -/
+theorem provider_delivery_ignores_subscriber_scheme (cfg : Cfg) (h : cfg.provTls = true) (sch : Scheme) (asyncMgr : Bool) :
+    deliveryTls cfg sch asyncMgr = true := by
+  simp [deliveryTls, h]
+
 /-- its own HTTP server then speaks TLS: what is advertised is what is served -/
 theorem provider_own_server_serves_tls (cfg : Cfg) (h : cfg.provTls = true) (ho : cfg.provServer = .own) :
     provServerTls cfg = true := by
